@@ -246,11 +246,64 @@ def run(ctx: Ctx, rep: Report) -> None:
             cur = tgt[1:] + cur[1:]
         return False
 
-    for fn, what in [(send, "sender-calling method"), (client.methods["__init__"].nested.get("handler"), "transport handler closure")]:
+    def closure_behind(fn_: FuncInfo, expr: Optional[ast.AST], depth: int = 0) -> Optional[FuncInfo]:
+        """The nested function an expression denotes: a local def, a local / self attribute bound to one, or what a factory method returns."""
+        if expr is None or depth > 4:
+            return None
+        if isinstance(expr, ast.Name):
+            cur: Optional[FuncInfo] = fn_
+            while cur is not None:
+                if expr.id in cur.nested:
+                    return cur.nested[expr.id]
+                cur = cur.parent
+            return closure_behind(fn_, ctx.defs(fn_).single(expr.id), depth + 1)
+        if isinstance(expr, ast.Attribute) and isinstance(expr.value, ast.Name) and expr.value.id == "self":
+            for n in own_nodes(fn_.node):
+                if isinstance(n, ast.Assign) and any(isinstance(t, ast.Attribute) and norm(t) == norm(expr) for t in n.targets):
+                    got = closure_behind(fn_, n.value, depth + 1)
+                    if got is not None:
+                        return got
+            return None
+        if isinstance(expr, ast.Call):
+            for callee in ctx.r.callees(fn_, expr):
+                if isinstance(callee, FuncInfo) and not callee.module.external:
+                    for r in own_nodes(callee.node):
+                        if isinstance(r, ast.Return) and r.value is not None:
+                            got = closure_behind(callee, r.value, depth + 1)
+                            if got is not None:
+                                return got
+        return None
+
+    init = client.methods["__init__"]
+    handler_fn = init.nested.get("handler")
+    if handler_fn is None:
+        # what the message-processing model is given as its transport handler
+        for n in own_nodes(init.node):
+            if isinstance(n, ast.Call) and ctx.r.call_resolves_to(init, n, "puresnmp.plugins.mpm:create") and len(n.args) >= 2:
+                handler_fn = handler_fn or closure_behind(init, n.args[1])
+
+    def is_sender_call(fn_: FuncInfo, n: ast.AST) -> bool:
+        if not isinstance(n, ast.Call):
+            return False
+        if (isinstance(n.func, ast.Attribute) and n.func.attr == sender_attr) or (isinstance(n.func, ast.Name) and n.func.id == "sender"):
+            return True
+        if isinstance(n.func, ast.Name):
+            # a captured alias of the sender (send = self.sender in the enclosing function)
+            cur: Optional[FuncInfo] = fn_
+            while cur is not None:
+                d = ctx.defs(cur)
+                vals = [d.single(n.func.id)] + [v.elts[i] for v, i, _ in d.unpack.get(n.func.id, []) if isinstance(v, ast.Tuple) and isinstance(i, int) and i < len(v.elts)]
+                for v in vals:
+                    if v is not None and (norm(v) in (f"self.{sender_attr}", "sender")):
+                        return True
+                cur = cur.parent
+        return False
+
+    for fn, what in [(send, "sender-calling method"), (handler_fn, "transport handler closure")]:
         if fn is None:
             rep.undecided("C18-R3", client.methods["__init__"].site(), "transport handler closure exists", "closure not found")
             continue
-        calls = [n for n in own_nodes(fn.node) if isinstance(n, ast.Call) and ((isinstance(n.func, ast.Attribute) and n.func.attr == sender_attr) or (isinstance(n.func, ast.Name) and n.func.id == "sender"))]
+        calls = [n for n in own_nodes(fn.node) if is_sender_call(fn, n)]
         for call in calls:
             kws = {kw.arg: kw.value for kw in call.keywords}
             for field in ("timeout", "retries"):
